@@ -18,7 +18,7 @@ func init() {
 		ID:    "C12",
 		Level: "model_checking",
 		Rule: "every condition value of the pool (each built-in type at zero and non-zero, prototypes, bear children, typed descendants, objects with user-defined B) x 10 conditional constructs with tracing operands, " +
-			"and all ordered pairs of pool values for && and ||; expected behaviour derived from the single rule `c.B is the true object` evaluated in the same run; operand identity by Go pointer; " +
+			"and all ordered pairs of pool values for && and ||; expected behaviour derived from the single rule `c.B is the true object` evaluated in the same run, with B itself pinned for the documented zero values (falsy) and for 23 built-in non-zero values (truthy; incl. non-empty objects/maps/arrays without a public identifier-named key or with only falsy elements); operand identity by Go pointer; " +
 			"non-trivial = every (value, construct) and (value, value, operator) instance; distinct = distinct source",
 		Assumptions: []string{
 			"a B that fails (Func.B, BaseObj) counts as not-true (the rule says: true exactly when B yields true)",
@@ -33,6 +33,8 @@ type cval struct {
 	Src    string `json:"src"`
 	Zero   bool   `json:"zero,omitempty"` // documented zero value: must be falsy
 	NoBang bool   `json:"nobang,omitempty"`
+	// a built-in value that is not one of the documented zero values: must be truthy
+	NonZero bool `json:"nonzero,omitempty"`
 }
 
 const prelude = `tr := {|tag, v| tag.p; v}
@@ -41,9 +43,9 @@ IB := Int.bear
 
 func pool(thorough bool) []cval {
 	p := []cval{
-		{Src: "0", Zero: true}, {Src: "1"}, {Src: "(-1)"}, {Src: "0.0", Zero: true}, {Src: "1.5"}, {Src: `""`, Zero: true}, {Src: `"a"`}, {Src: `"false"`},
-		{Src: "[]", Zero: true}, {Src: "[0]"}, {Src: "[nil]"}, {Src: "{}", Zero: true}, {Src: "{a: 1}"}, {Src: "%{}", Zero: true}, {Src: "%{1: 2}"},
-		{Src: "nil", Zero: true}, {Src: "true"}, {Src: "false", Zero: true},
+		{Src: "0", Zero: true}, {Src: "1", NonZero: true}, {Src: "(-1)", NonZero: true}, {Src: "0.0", Zero: true}, {Src: "1.5", NonZero: true}, {Src: `""`, Zero: true}, {Src: `"a"`, NonZero: true}, {Src: `"false"`, NonZero: true},
+		{Src: "[]", Zero: true}, {Src: "[0]", NonZero: true}, {Src: "[nil]", NonZero: true}, {Src: "{}", Zero: true}, {Src: "{a: 1}", NonZero: true}, {Src: "%{}", Zero: true}, {Src: "%{1: 2}", NonZero: true},
+		{Src: "nil", Zero: true}, {Src: "true", NonZero: true}, {Src: "false", Zero: true},
 		{Src: "(1:3)"}, {Src: "(nil:nil)"}, {Src: "{|x| x}"}, {Src: "m{|x| x}"}, {Src: "<{|x| yield x}>"},
 		{Src: "Int"}, {Src: "Float"}, {Src: "Str"}, {Src: "Arr"}, {Src: "Obj"}, {Src: "Map"}, {Src: "Nil"}, {Src: "Range"}, {Src: "Func"}, {Src: "Err"},
 		{Src: "BaseObj", NoBang: true},
@@ -53,10 +55,14 @@ func pool(thorough bool) []cval {
 		{Src: "Int.bear({B: m{self > 10}}).new(5)"}, {Src: "Int.bear({B: m{self > 10}}).new(50)"}, {Src: "Int.bear({B: m{self < 1}}).new(0)"}, {Src: "Int.bear({B: true}).new(0)"},
 		{Src: "Float.bear({B: m{false}}).new(1.5)"}, {Src: "Float.bear({B: m{true}}).new(0.0)"}, {Src: `Str.bear({B: m{false}}).new("x")`}, {Src: `Str.bear({B: m{true}}).new("")`},
 		{Src: "Arr.bear({B: m{false}}).new([1])"}, {Src: "Arr.bear({B: m{true}}).new([])"}, {Src: "Map.bear({B: m{true}}).new(%{})"}, {Src: "true.bear({B: false})"}, {Src: "false.bear({B: true})"}, {Src: "nil.bear({B: true})"},
+		// non-empty objects/maps/arrays that have no public identifier-named key or only falsy elements
+		{Src: "{_p: 1}", NonZero: true}, {Src: `{"user-id": 5}`, NonZero: true}, {Src: "{'+: 1}", NonZero: true}, {Src: "{}.bear({_x: 2})", NonZero: true},
+		{Src: "%{nil: nil}", NonZero: true}, {Src: "%{[]: 0}", NonZero: true}, {Src: "[[]]", NonZero: true}, {Src: "[false]", NonZero: true}, {Src: `" "`, NonZero: true}, {Src: `"0"`, NonZero: true},
+		{Src: "0.5", NonZero: true}, {Src: "(-0.5)", NonZero: true}, {Src: `"inf".F`, NonZero: true},
 		{Src: "1.try"}, {Src: "nil.try"}, {Src: "1.try./(0)"}, {Src: "1.try./(0).err"}, {Src: `"nan".F`},
 	}
 	if thorough {
-		p = append(p, cval{Src: "0.5"}, cval{Src: "(-0.0)"}, cval{Src: `" "`}, cval{Src: "[[]]"}, cval{Src: "[false]"}, cval{Src: "{_p: 1}"}, cval{Src: "%{nil: nil}"},
+		p = append(p, cval{Src: "(-0.0)"},
 			cval{Src: "(0:0)"}, cval{Src: "Float.bear.new(0.0)"}, cval{Src: "Float.bear.new(2.0)"}, cval{Src: "{B: true}.bear"}, cval{Src: "{B: false}.bear({x: 1})"},
 			cval{Src: "Kernel"}, cval{Src: "Either"}, cval{Src: "Iter"}, cval{Src: "Comparable"}, cval{Src: "JSON"}, cval{Src: "Diamond"}, cval{Src: "Num"},
 			cval{Src: "9223372036854775807"}, cval{Src: "{B: m{[]}}"}, cval{Src: `{B: "true"}`}, cval{Src: "true.bear"}, cval{Src: "false.bear"})
@@ -163,6 +169,13 @@ func checkValue(c *core.Ctx, p []cval, i int, pairs bool) {
 		c.Nontrivial(1)
 		if t {
 			viol("construct", "zero-value-truthy", 0, "documented zero value is falsy", "B yields true", name(i)+".B")
+		}
+	}
+	if p[i].NonZero {
+		c.Eval(1)
+		c.Nontrivial(1)
+		if !t {
+			viol("construct", "non-zero-built-in-value-falsy", 0, "a built-in value other than the documented zero values is truthy", "B does not yield true", name(i)+".B")
 		}
 	}
 	for q, cs := range constructs {
